@@ -118,7 +118,7 @@ pub fn run(mut chk: Check) -> ! {
         "generated values are canonical conforming values (decimals fit precision/width, real UUIDs, big-decimal scale within +-40)".into(),
     ];
     chk.replay_files(dispatch);
-    let n = chk.scale(50_000, 2_000_000);
+    let n = chk.scale(600_000, 4_000_000);
     chk.campaign(CampaignCfg::new("roundtrip", n), case_roundtrip);
     chk.require_label("roundtrip:case", "roundtrip:case", 0.0);
     let rejected = *chk.labels.get("roundtrip:schema_rejected").unwrap_or(&0);
